@@ -776,3 +776,20 @@ func itoa(i int) string {
 	}
 	return string(b)
 }
+
+// ValuationAlong returns the valuation of trackable conditions that the outcomes on a path establish (later
+// assignments on the path to variables of a condition drop it again).
+func (g *Graph) ValuationAlong(path []*Node, fields bool) map[string]bool {
+	val := map[string]bool{}
+	for _, n := range path {
+		if (n.Kind == KTrue || n.Kind == KFalse) && n.Of != nil {
+			if key, neg, ok := g.CondKeyOf(n.Of, fields); ok {
+				val[key] = (n.Kind == KTrue) != neg
+			}
+		}
+		if len(val) > 0 {
+			g.invalidate(n, val, nil)
+		}
+	}
+	return val
+}
